@@ -5,12 +5,35 @@ import (
 	"strings"
 )
 
+// skipKeyword returns what follows the declaration keyword at the start of line (leading blanks and
+// tabs ignored, the words of the keyword and the name separated by any run of blanks and tabs, as the
+// grammar allows), and whether the line starts with the keyword at all.
+func skipKeyword(line, keyword string) (string, bool) {
+	rest := strings.TrimLeft(line, " \t")
+
+	for _, word := range strings.Fields(keyword) {
+		after, found := strings.CutPrefix(rest, word)
+		if !found || after == "" || (after[0] != ' ' && after[0] != '\t') {
+			return "", false
+		}
+
+		rest = strings.TrimLeft(after, " \t")
+	}
+
+	return rest, true
+}
+
 // declares reports whether the line, ignoring surrounding whitespace, starts with the given
 // declaration keyword followed by exactly name: the name has to end there, i.e. it is followed by
 // the end of the line or by a character that cannot continue a name (so that looking for `a`
 // does not stop at the declaration of `ab`).
 func declares(line, keyword, name string) bool {
-	rest, found := strings.CutPrefix(strings.TrimSpace(line), keyword+" "+name)
+	afterKeyword, found := skipKeyword(strings.TrimSpace(line), keyword)
+	if !found {
+		return false
+	}
+
+	rest, found := strings.CutPrefix(afterKeyword, name)
 	if !found {
 		return false
 	}
@@ -66,10 +89,24 @@ func ConstructLineAndColumnData(lines []string, lineIndex int, symbol string) (S
 
 	rawLine := lines[lineIndex]
 
-	wordIdx := strings.Index(rawLine, symbol)
+	// the declared name stands behind the keyword: do not find it inside the keyword itself
+	// (`type e`, `define d`), nor a keyword used as a name (`type type`)
+	searchFrom := 0
+
+	for _, keyword := range []string{"extend type", "type", "condition", "define"} {
+		if afterKeyword, found := skipKeyword(rawLine, keyword); found {
+			searchFrom = len(rawLine) - len(afterKeyword)
+
+			break
+		}
+	}
+
+	wordIdx := strings.Index(rawLine[searchFrom:], symbol)
 
 	if wordIdx == -1 {
 		wordIdx = 0
+	} else {
+		wordIdx += searchFrom
 	}
 
 	return StartEnd{
